@@ -641,10 +641,24 @@ func applyFopAllRequests(sortedQSRSlice []*QuerySegmentRequest, queryInfo *Query
 
 	shouldRemoveUsageForSeg := !queryInfo.GetQueryType().IsRRCCmd() && allSegFileResults.GetAggs().HasStatsBlock()
 
+	// While a segment is being rotated it is added to the rotated metadata before it is
+	// removed from the unrotated info, so a query planned in that window has two requests
+	// for the same segment key. Whichever of them runs first reads the segment where it is
+	// at that moment (see the IsSegKeyUnrotated checks below); the other one must not add
+	// the same records a second time.
+	searchedSegKeys := make(map[string]struct{}, sortedQSRSliceLen)
+
 	for idx, segReq := range sortedQSRSlice {
 		if idx == sortedQSRSliceLen-1 {
 			doBuckPull = true
 		}
+
+		if _, ok := searchedSegKeys[segReq.segKey]; ok {
+			// Counted as finished with the next update (or the final one after the loop).
+			segsNotSent++
+			continue
+		}
+		searchedSegKeys[segReq.segKey] = struct{}{}
 
 		isCancelled, err := checkForCancelledQuery(queryInfo.qid)
 		if err != nil {
@@ -1259,6 +1273,13 @@ func applyFilterOperatorUnrotatedPQSRequest(qsr *QuerySegmentRequest, allSegFile
 }
 
 func applyFilterOperatorUnrotatedRawSearchRequest(qsr *QuerySegmentRequest, allSegFileResults *segresults.SearchResults, qs *summary.QuerySummary) error {
+	if !writer.IsSegKeyUnrotated(qsr.segKey) {
+		// The segment was rotated after this request was planned: it has left the unrotated
+		// info (looking it up there would find nothing) and is in the rotated metadata.
+		qsr.sType = structs.RAW_SEARCH
+		return applyFilterOperatorRawSearchRequest(qsr, allSegFileResults, qs)
+	}
+
 	// run through micro index check for block tracker & generate SSR
 	blocksToRawSearch, err := qsr.GetMicroIndexFilter()
 	if err != nil {
